@@ -1,6 +1,6 @@
 SPECIFICATION Spec
 CONSTANTS
-  Files = 1
+  Files = 2
   StickyGrid = FALSE
   Truthiness = FALSE
   As = {1, 2, 3, 4, 5, 7, 25}
